@@ -190,7 +190,7 @@ def gen_cases(ctx, pms, rng, per_version):
             return
         # composeinfo
         for version in DV.COMPOSEINFO_VERSIONS:
-            force = ["depth-3", "layered", "layered-product-variant", "all-variant-types", None][i % 5]
+            force = ["depth-3", "layered", "layered-product-variant", "all-variant-types", "dashed-top-prefix-of-sibling", None][i % 6]
             D = FC.gen_description(rng, force, hostile=False)
             textin, E = DV.composeinfo(D, version, rng)
             case = {"fmt": "composeinfo", "version": version, "document": textin}
